@@ -525,7 +525,20 @@ func afterCutUploads(rep *Report, r rng, prop string) int {
 		{Kind: "c1", CT: "application/octet-stream", Body: lpE[len(lpE)/2:]},
 	}, uploads...)
 	for ui, up := range uploads {
-		for _, cut := range []int{1, len(up.Body) / 2, len(up.Body) - 1, len(up.Body)} {
+		// cut positions are positions of the body as sent (for a multipart form: the payload inside its framing, so that the
+		// last cuts fall inside the closing delimiter, after the file part is complete)
+		full := len(up.Body)
+		if rq, err := up.build("http://verif.local"); err == nil {
+			if b, err := io.ReadAll(rq.Body); err == nil {
+				full = len(b)
+			}
+		}
+		cuts := []int{1, full / 2, full - 1, full}
+		if up.Multipart != "" {
+			// (a form delivered in full is complete whatever the transport reports afterwards: no cut at its length)
+			cuts = []int{1, full / 2, full - 5, full - 3, full - 1}
+		}
+		for _, cut := range cuts {
 			for fi, fo := range followers {
 				// reference: the follower alone on a fresh server
 				repoRef := verifhooks.NewInMemoryRepo()
@@ -540,15 +553,15 @@ func afterCutUploads(rep *Report, r rng, prop string) int {
 				gotStore := dumpStore(repo)
 				n++
 				rep.count(fmt.Sprintf("after-cut-upload:%s:%d", up.Kind, gotCode))
-				if c1 >= 200 && c1 < 300 && cut < len(up.Body) {
-					rep.violate(Violation{Key: prop + ":cut-upload-accepted:" + up.Kind, What: fmt.Sprintf("an upload whose body broke off after %d of %d bytes was answered %d", cut, len(up.Body), c1),
+				if c1 >= 200 && c1 < 300 && cut < full {
+					rep.violate(Violation{Key: prop + ":cut-upload-accepted:" + up.Kind, What: fmt.Sprintf("an upload whose body broke off after %d of %d bytes was answered %d", cut, full, c1),
 						Replay: map[string]any{"upload": ui, "kind": up.Kind, "content_type": up.CT, "multipart": up.Multipart, "cut": cut, "status": c1}})
 					break
 				}
 				_ = c1b
 				if gotCode != wantCode || gotStore != wantStore {
 					rep.violate(Violation{Key: prop + ":request-behind-a-broken-upload:" + up.Kind + ":" + fo.Kind, What: fmt.Sprintf("a %s request is answered %d (alone: %d) / leaves a different store when it follows a %s upload whose body broke off after %d bytes", fo.Kind, gotCode, wantCode, up.Kind, cut),
-						Replay: map[string]any{"upload_kind": up.Kind, "upload_content_type": up.CT, "upload_multipart": up.Multipart, "cut": cut, "follower": fi, "follower_kind": fo.Kind, "follower_content_type": fo.CT, "follower_body": hx(fo.Body[:min(200, len(fo.Body))]), "status_alone": wantCode, "status_behind": gotCode, "store_same": gotStore == wantStore}})
+						Replay: map[string]any{"upload_kind": up.Kind, "upload_content_type": up.CT, "upload_multipart": up.Multipart, "cut": cut, "follower": fi, "follower_kind": fo.Kind, "follower_content_type": fo.CT, "follower_body": hx(fo.Body[:min(200, len(fo.Body))]), "status_alone": wantCode, "status_behind": gotCode, "store_same": gotStore == wantStore, "upload_status": c1, "second_upload_status": c1b, "upload_body_bytes": full}})
 					break
 				}
 			}
